@@ -12,13 +12,35 @@
     - fallback, helped: the value comes from the envelope named by the control word, which a
       writer fills with a [load_full] of the storage whose address the reader announced
       ([C12_help_only_matching_storage]).
-    NOT yet proved (partial): that the helper's nested load lies inside the reader's call
+    Beyond these step theorems (see END-TO-END below for what is now proved over all schedules): that the helper's nested load lies inside the reader's call
     (uniqueness of generations within a node's ownership epoch - the argument that uncovered
     defect D8) and the real-time / per-thread monotonicity clauses as theorems over histories.
     These are checked on every run by the history oracle of the correspondence (every returned
     identity must have been the stored value of THAT container at some instant between call
-    and return; loads after a completed write see it or a later one; per-thread monotonic). *)
-From ASModel Require Import Base State Orderings_gen Step Run Progress Hist Local.
+    and return; loads after a completed write see it or a later one; per-thread monotonic). 
+    END-TO-END ([ASModel.Main], all schedules, any number of threads): the theorems below hold for
+    every run from an initial configuration that satisfies [RunOK]: initial values are null or
+    valid addresses; no program calls the verification hook [set_generation] or uses Cache; in
+    every state of the run no generation counter is within 4 of wrapping ([GenBound]: a wrap needs
+    2^62 fallback loads of one thread; the wrap itself is C13), a command's destination handle is
+    empty and the source of a running clone is not dropped (conditions on the TEST PROGRAM, met by
+    every generated program: the model driver checks them on every run and the evidence counts the
+    runs inside this scope); the allocator hands out addresses that are not live, not null and not
+    the empty-slot marker.
+    [C03_load_linearizable]: command number i of thread t is load / load_full of container c; it
+    starts with the step at position pa of the schedule and completes with the step at position pb:
+    then the handle holds a value v that container c stored in one of the states between the call
+    and the return - on the fast path (the confirming read), the unhelped fallback (the candidate
+    read after the request was published) and the helped fallback (the helper loaded the value
+    after it read the request's generation, which is unique within the time it stays in the node:
+    [GenInv]; the envelope is not overwritten before the reader takes it: [EnvInv]).  With the
+    write chain ([C03_writes_form_chain]) this gives the real-time and per-thread monotonicity
+    clauses: the instant k lies after every write completed before the call and before the call
+    of every later load of the same thread.
+*)
+From ASModel Require Import Base State Orderings_gen Step Run Progress Hist Local Inv InvTl InvProto InvStep Sum StepCases.
+From ASModel Require Import GenDefs Gen1 Gen2 Gen EnvDefs Env4 Env AccDefs Acc1 Acc2 Acc3 Acc4 Acc5 Acc6 Acc7 Acc.
+From ASModel Require Import ProtDefs Prot1 Prot11 Prot16 Prot Typed LinDefs Lin2 Lin Safe1 Safe2 Safe7 Safe8 Safe Main.
 
 Theorem C03_fast_confirm : forall cf s l c v j x,
   let n := own_node l in
@@ -52,8 +74,35 @@ Theorem C03_writes_form_chain : forall cf c sched s,
         (mem (sh (fst (run cf s sched))) (LStore c)).
 Proof. exact store_chain. Qed.
 
+Theorem C03_load_linearizable :
+  forall cf inits progs sched, RunOK cf inits progs sched ->
+  forall t i cm c h pa pb xa tb xb,
+  let s0 := init_state inits progs in
+  nth_error (t_prog (thr s0 t)) (N.to_nat i) = Some cm -> is_load_of cm c h ->
+  (pa <= pb)%nat ->
+  nth_error sched pa = Some (t, xa) ->
+  t_status (thr (St cf s0 sched pa) t) = Running -> t_stack (thr (St cf s0 sched pa) t) = [] ->
+  t_cmdi (thr (St cf s0 sched pa) t) = i ->
+  nth_error sched pb = Some (tb, xb) ->
+  t_cmdi (thr (St cf s0 sched pb) t) = i -> t_cmdi (thr (St cf s0 sched (S pb)) t) = i + 1 ->
+  exists v, (match cm with
+             | CLoad _ _ => exists d, hnd (St cf s0 sched (S pb)) h = HGuard v d
+             | _ => hnd (St cf s0 sched (S pb)) h = HOwned v
+             end) /\
+    exists k, (pa + 1 <= k <= pb + 1)%nat /\ mem (sh (St cf s0 sched k)) (LStore c) = v.
+Proof. intros cf inits progs sched R. exact (Main.C03_load_linearizable cf inits progs sched R). Qed.
+
+Theorem C03_generation_unique : forall cf inits progs sched,
+  (forall p, In p progs -> forall g, ~ In (CSetGen g) p) ->
+  (forall k, GenBound (run_state cf (init_state inits progs) (firstn k sched))) ->
+  NoFault (run_state cf (init_state inits progs) sched) ->
+  GenInvQ (run_state cf (init_state inits progs) sched).
+Proof. exact run_GenInv_bound. Qed.
+
 Print Assumptions C03_fast_confirm.
 Print Assumptions C03_exit_returns_value.
 Print Assumptions C03_fallback_candidate.
 Print Assumptions C03_fallback_confirm.
 Print Assumptions C03_writes_form_chain.
+Print Assumptions C03_load_linearizable.
+Print Assumptions C03_generation_unique.
